@@ -595,7 +595,14 @@ def search_c07(rng, n, S=None, kinds=None):
                 v = np.asarray(phi.value)
                 if not np.all(np.isfinite(v)):
                     ok = None; break
-                slack = 1e-6 * max(hi - lo, abs(hi), abs(lo), 1e-300)     # far above rounding even at contrast 1e6, far below any overshoot of a non-monotone row
+                # far above rounding, far below any overshoot of a non-monotone row; rounding of the solve grows with the
+                # condition number ~ dt * (D/dx^2 + |u|/dx) / alpha of the step matrix (1e10 at D = 1e6, dt = 1e4)
+                hmin = min(float(np.min(np.diff(f))) for f in mc.faces)
+                if kind in ("pol2", "cyl3", "sph3"):          # angular spacings are r*dtheta (r*sin(theta)*dphi)
+                    rc = 0.5 * (mc.faces[0][1:] + mc.faces[0][:-1])
+                    hmin *= min(1.0, float(np.min(rc))) * (0.05 if kind == "sph3" else 1.0)
+                cond = 1.0 + dt * (max(float(np.max(a)) for a in Darr) / hmin ** 2 + max(float(np.max(np.abs(a))) for a in uarr) / hmin)
+                slack = max(1e-6, 1e-14 * cond) * max(hi - lo, abs(hi), abs(lo), 1e-300)
                 if float(np.min(v)) < lo - slack or float(np.max(v)) > hi + slack:
                     ok = False; worst = (float(np.min(v)), float(np.max(v))); break
             if ok is None:
@@ -983,7 +990,14 @@ def search_c02(rng, n, S=None, kinds=None, Ns=None):
             if dim == 3:
                 ok = errs[-1] < errs[0] and errs[-1] <= (0.9 if nominal == 1.0 else 0.6) * errs[-2]
             else:
-                ok = errs[-1] < errs[0] and orders[-1] >= 0.8 * nominal - 0.15
+                thr = 0.8 * nominal - 0.15
+                ok = errs[-1] < errs[0] and orders[-1] >= thr
+                if not ok and errs[-1] < errs[0]:
+                    # pre-asymptotic wobble (first-order upwind error changing sign against the second-order diffusion error):
+                    # one more refinement decides; an inconsistent scheme stalls at every level
+                    errs.append(manufactured_error(kind, 2 * NN[-1], graded, termset, bck, fam))
+                    orders.append(math.log(errs[-2] / errs[-1], 2) if errs[-1] > 0 else 9.0)
+                    ok = orders[-1] >= thr or math.log(errs[0] / errs[-1], 2) / (len(errs) - 1) >= thr
             S.check(bool(ok), f"C02:order:{kind}:{'+'.join(termset)}", "error against the manufactured solution does not decrease at the order of the scheme", {**inp, "errors": errs},
                     orders, nominal)
             if len(S.samples) < 3:
